@@ -135,6 +135,11 @@ class FloatProv:
             while isinstance(tt, Partial):
                 tt = tt.target
             if isinstance(tt, Func) and e.args:
+                # a helper that casts: every return value is floating whatever it is given
+                rets = [r for r in tt.own_nodes() if isinstance(r, ast.Return) and r.value is not None] if not tt.is_lambda else []
+                if rets and all(isinstance(r.value, ast.Call) and short(r.value) == 'astype' and r.value.args and
+                                norm(r.value.args[0]) in FLOAT_T for r in rets):
+                    return True
                 # package functions that transform an array keep (or widen) the dtype of their first argument
                 return self.is_float(f, e.args[0], depth + 1, seen)
             if isinstance(t, (BackendTable, SelectedBackend)) and e.args:
